@@ -4,7 +4,7 @@ import json, subprocess, sys
 
 CHECKS = {
  "C02": dict(engine="E1-simworld", category="model_checking", design="§3 C02",
-   text="One real searcher among scripted ideal responders: L1 every subset (size 1..5, thorough 1..6) of a 3-bit (4-bit) id-prefix universe x searcher id x info-hash class at the default schedule; L2 every topology x 3 (searcher, info-hash) pairs x every single (thorough double) latency deviation over {1,20,240,480} ms on the search's datagrams; L3 every topology of size <= 3 x contact choice x read-only x port/announce x peer sets x family; structured networks of 30/200(/1000) nodes (uniform, clustered at target, clustered at searcher). Oracle: announce_peer exactly to the 8 closest by XOR (all if fewer) with that node's token, hash, own id, port/implied_port; stream == multiset of values of all delivered answers.",
+   text="One real searcher among scripted ideal responders: L1 every subset (size 1..5, thorough 1..6) of a 3-bit (4-bit) id-prefix universe x searcher id x info-hash class at the default schedule; L2 every topology x 3 (searcher, info-hash) pairs x every single (thorough double) latency deviation over {1,20,240,480} ms on the search's datagrams; L3 every topology of size <= 3 x contact choice x read-only x port/announce x peer sets x family; structured networks of 30/200(/1000) nodes (uniform, clustered at target, clustered at searcher); a stale-bucket layer (the target's bucket holds 8 questionable entries while nearer buckets are fresh; the search is issued every 0.5 s / 0.1 s across that window). Oracle: announce_peer exactly to the 8 closest by XOR (all if fewer) with that node's token, hash, own id, port/implied_port; stream == multiset of values of all delivered answers.",
    note="Responders answer within 480 ms one-way (premise: within one second). Distance ties (equal ids) make the 8-closest set ambiguous and either choice is accepted.",
    technique="layered exhaustive enumeration of topologies/configurations + deviation-bounded schedule exploration of the real node"),
  "C03": dict(engine="E1-simworld", category="fault_enumeration", design="§3 C03",
@@ -32,19 +32,19 @@ CHECKS = {
    note="Well-formed = shapes generated by the scripted clients; background queries of the node to its contacts are ignored.",
    technique="exhaustive enumeration of short input sequences against the real node under virtual time"),
  "C15": dict(engine="E1-simworld", category="model_checking", design="§3 C15",
-   text="One real node per run over ~110 builder configurations (0..12/36 contacts x 7 behaviours x read-only, router/node splits incl. overlap, outages up to 20 min / 2 h, flapping) with 2-5 bootstrapped() callers at chosen instants, API liveness sampled every 10 virtual seconds, plus every single deviation {1,480,2600 ms, drop} on the bootstrap datagrams of the first 20 s.",
+   text="One real node per run over ~110 builder configurations (0..12/36 contacts x 7 behaviours x read-only, router/node splits incl. overlap, outages up to 20 min / 2 h, flapping) with 2-5 bootstrapped() callers at chosen instants, waiters every 250 ms across re-bootstrap cycles and during outages that follow a successful bootstrap, unresolvable router strings, a contact naming one address under two ids; API liveness sampled every 10 virtual seconds, plus every single deviation {1,480,2600 ms, drop, duplicate} on the bootstrap datagrams of the first 20 s.",
    note="'about 11 minutes' is asserted as 660 s after max(call, first instant from which a contact answers continuously); with routers the deadline is not asserted (the statement restricts it to plain nodes).",
    technique="stateless exploration of the real node over configurations, outage patterns and single deviations"),
  "C16": dict(engine="E1-simworld", category="model_checking", design="§3 C16",
-   text="Differential: a fresh node joining a mesh of 2..4 real nodes issues 1-3 searches at offsets {0, 1 ms, after first answer, just before/at/after bootstrap completion} x contact sets x latencies {1,480,990}; each run is compared with the identical run in which the searches are issued right after bootstrapped(); plus <= 1 (thorough 2) deviation {1,480,990 ms, drop} on the fresh node's bootstrap datagrams with the same choice prefix in both runs.",
+   text="Differential: a fresh node joining a mesh of 2..4 real nodes issues 1-3 searches at offsets {0, 1 ms, after first answer, just before/at/after bootstrap completion} x contact sets x latencies {1,480,990}, searches at 7 offsets around the 5 s re-bootstrap, router-only fresh nodes; each run is compared with the identical run in which the searches are issued right after bootstrapped(); plus <= 1 (thorough 2) deviation {1,480,990 ms, drop} on the fresh node's bootstrap datagrams with the same choice prefix in both runs.",
    note="Sets of distinct peers are compared (multiplicities depend on how many nodes answered).",
    technique="stateless deviation-bounded exploration with a differential oracle"),
  "C17": dict(engine="E1-simworld", category="model_checking", design="§3 C17",
-   text="Size monitor on every datagram a real node emits: dedicated single-node runs with k peers on one info-hash (k over 32 values quick, every k in 0..500 thorough) x peer family x node family x table, get_peers from both families x want x tid length {0,8,32}, other reply kinds with 32-byte tids; and the same monitor over the scenario sets of C01, C05, C18. Oracle: <= 1500 bytes and decodable by Message::decode.",
+   text="Size monitor on every datagram a real node emits: dedicated single-node runs with k peers on one info-hash (k over 32 values quick, every k in 0..500 thorough) x peer family x node family x table, get_peers from both families x want x tid length {0,8,32} (every length 0..=32 on stores that need the cap), other reply kinds with 32-byte tids; a searching node among responders handing out tokens of 0..1440 bytes (announce_peer echoes them); and the same monitor over the scenario sets of C01, C05, C18. Oracle: <= 1500 bytes and decodable by Message::decode.",
    note="Transaction ids up to 32 bytes as quantified; longer echoed ids are out of the statement's range.",
    technique="exhaustive parameter sweep of the real node with a universal wire monitor"),
  "C18": dict(engine="E1-simworld", category="model_checking", design="§3 C18",
-   text="One real node with 1..3 responsive contacts and no routers (re-bootstrap every ~5 s), with/without hourly outages, latencies {1,20,200} ms, 10 min (quick) / 1 h, 6 h (thorough) of virtual time; refresh rounds and timer-queue length read from hook probes every virtual second; every 60 s window: rounds <= 11 + bootstrap attempts on the wire, queue <= 4.",
+   text="One real node with 1..3 responsive contacts and no routers (re-bootstrap every ~5 s), with/without hourly outages, latencies {1,20,200} ms, 10 min (quick) / 1 h, 6 h (thorough) of virtual time; refresh rounds and timer-queue length read from hook probes every virtual second; every 60 s window: rounds <= 11 + bootstrap attempts on the wire, queue <= 4 (<= 40 with search traffic); also with a hearsay node towards which every send fails, and with announcing searches every ~3 s while send_to takes 0/40/300 ms.",
    note="Deterministic single execution per configuration (the property quantifies over run lengths and re-bootstrap counts). Completions are bounded by attempts seen on the wire.",
    technique="exhaustive sweep of run lengths/configurations of the real node under virtual time with probe oracles"),
  "C06": dict(engine="E2-space", category="model_checking", design="§3 C06",
@@ -64,7 +64,7 @@ CHECKS = {
    note="Quick tier uses a subset of single-bit flips (all up to bucket count + 1).",
    technique="bounded explicit-state exploration of the real RoutingTable with a complete per-state oracle"),
  "C10": dict(engine="E2-space", category="model_checking", design="§3 C10",
-   text="BFS over a real RoutingTable holding one contact (thorough: to closure, 26 M states; quick: depth 16 plus closure on a 450 s grid) and two contacts (bounded depth) under answer / hearsay / query received / query sent / advance{1,29,30,31,899,900,901 s}; in every state load_contacts and closest_nodes are compared with a history specification of BEP5 classification (good only with an answer or a query from a known contact in the last 15 min; answer => good; hearsay-only never good; two unanswered queries while not good => not reported until it answers or is re-admitted).",
+   text="BFS over a real RoutingTable holding one contact (thorough: to closure, 26 M states; quick: depth 16 plus closure on a 450 s grid) and two contacts (bounded depth) under answer / hearsay / query received / query sent / advance{1,29,30,31,899,900,901 s}; in every state load_contacts and closest_nodes are compared with a history specification of BEP5 classification (good only with an answer or a query from a known contact in the last 15 min; answer => good; hearsay-only never good; two unanswered queries while not good => not reported until it answers or is re-admitted). E1 binding: a contact that answered, went silent and turned questionable sends each of the four query kinds (incl. announce_peer with a bad token) at chosen instants to a real serving node: it must be good right after and 10 minutes later, not good 15 min 1 s later, and the four kinds must be classified alike.",
    note="Where the statement leaves a choice (hearsay-only contact that queried) both answers are allowed. A contact lost because another one was offered is an eviction (C08), not a classification error.",
    technique="explicit-state model checking of the real object to closure (BFS, hook-snapshot dedup)"),
  "C13": dict(engine="E3-enum", category="exploration", design="§3 C13",
